@@ -172,8 +172,9 @@ def run(facts):
                 if not bad2 and n2:
                     bad, n_paths = None, n2
                     break
-        if bad and b.safety == "unsafe" and b.kind in ("fn", "assoc_fn"):
-            # an unsafe helper whose requirement is stated in prose only (`# Safety: begin <= end <= len`): the stores are judged where
+        if bad and (b.safety == "unsafe" or str(b.vis).startswith("Restricted")) and b.kind in ("fn", "assoc_fn"):
+            # an unsafe helper whose requirement is stated in prose only (`# Safety: begin <= end <= len`), or a private helper that only
+            # the crate can call (`fn shorten_to(&mut self, len)`, "callers guarantee len < self.len"): the stores are judged where
             # the helper is used - in every caller, with the helper spliced in
             from .inline import contexts
             ctxs = contexts(facts, b)
